@@ -1,13 +1,18 @@
 ---------------------------- MODULE Trace_Preview ----------------------------
 (* Trace validation for FzfPreview (C20): sessions of the real interactive fzf under tmux with preview commands that  *)
-(* log their own invocation.  Every pv.* hook event (projected by lib/preview.py, one NDJSON record per event) must   *)
-(* be an enabled step of the previewer protocol of spec/FzfPreview.tla; at quiescence the observations made OUTSIDE   *)
-(* fzf - the command's own log, the process table, the captured preview window - must be what the specification says  *)
-(* for the terminal's final state; after the end of the session no preview process may be left.                       *)
+(* log their own invocation and print MULTI-LINE outputs that name the item on every line.  Every pv.* hook event      *)
+(* (projected by lib/preview.py, one NDJSON record per event) must be an enabled step of the previewer protocol of    *)
+(* spec/FzfPreview.tla; the rows of the preview window are a STATE VARIABLE (`scr`) that follows printPreview exactly  *)
+(* as FzfPreview states it (DisplayFull: every row replaced by the window of the lines from the scroll offset;         *)
+(* DisplayAppend: the `unchanged` optimisation repaints the first row only); at quiescence the observations made       *)
+(* OUTSIDE fzf - the command's own log, the process table, EVERY ROW of the captured preview window - must be what the *)
+(* specification says for the terminal's final state; after the end of the session no preview process may be left.     *)
 (*                                                                                                                    *)
 (* Events (field ev):                                                                                                 *)
-(*   begin   sid texts tmpls kinds tag    new session (state reset); item texts; templates tag -> field codes; what    *)
-(*                                        the command does by item index mod Len(kinds) (kind "mute" prints nothing)   *)
+(*   begin   sid texts tmpls kinds talls H W wrap tag   new session (state reset); item texts; templates tag -> field  *)
+(*                                        codes; what the command does by item index mod Len(kinds) (kind "mute"       *)
+(*                                        prints nothing) and how many lines it prints at once by item index mod       *)
+(*                                        Len(talls); rows / columns of the preview window; wrap mode                  *)
 (*   enq     q item nitems tag during     terminal announces a request (hook BEFORE the try-send and the Set); during  *)
 (*                                        = the action being executed, "" when the render loop announces it            *)
 (*   sig     immediately sent             outcome of the non-blocking send on killChan (cancel / kill)                 *)
@@ -16,48 +21,77 @@
 (*   kill    version immediately          watcher received from killChan                                               *)
 (*   ctxdone version                      watcher left through ctx.Done (no kill)                                      *)
 (*   cexit   version status               command reaped (EOF on its pipe + Wait + both helper goroutines done)        *)
-(*   disp    version nlines head          render loop put a preview result into the window; head = first line split    *)
-(*   quiet   cur q sel visible tag pane procs overlaps log      driver observed quiescence (GET /, /proc, LOG, screen) *)
+(*   disp    version nlines head          render loop took a preview result over (and painted it if the window is      *)
+(*                                        there); head = first line split at "|" (last field: the line number)         *)
+(*   scroll  act                          preview-up / -down / -page-up / -page-down / -half-page-* / -top / -bottom   *)
+(*   tp                                   toggle-preview executed          tw    toggle-preview-wrap executed          *)
+(*   quiet   cur q sel visible tag rows nlo procs overlaps log   driver observed quiescence (GET /, /proc, LOG, the     *)
+(*                                        H rows of the preview window cut from the captured screen; nlo = number of   *)
+(*                                        lines of the last result that is certainly on the screen)                    *)
 (*   exit    how status survivors overlaps    fzf has exited (abort / accept / SIGTERM); process groups of preview     *)
 (*                                        commands still alive (neither zombie nor with SIGKILL pending)               *)
-(* Deviations of FzfPreview (findings F6, F18) are accepted only as named steps; a session that reaches its end only   *)
-(* with their help is reported with the finding's signature, any other discrepancy is a plain rejection.               *)
+(* Deviations of FzfPreview (findings F6, F18, F24) are accepted only as named steps; a session that reaches its end   *)
+(* only with their help is reported with the finding's signature, any other discrepancy is a plain rejection.          *)
 (*                                                                                                                    *)
 (* Field codes of a template (what the command prints, one field per placeholder): n {n}, s {}, q {q}, pn {+n} joined  *)
-(* by ",", pf the lines of {+f} each followed by ",", f the content of {f}.                                            *)
-EXTENDS Integers, Sequences, FiniteSets, TLC, Json, IOUtils
+(* by ",", pf the lines of {+f} each followed by ",", f the content of {f}.  Line i of the output is the identity      *)
+(* line (tag and fields joined by "|") followed by "|i".                                                               *)
+EXTENDS Integers, Sequences, FiniteSets, TLC, Json, IOUtils, FzfPreviewTree
+
+CONSTANT DelayedSetsVersion      \* reqPreviewDelayed assigns t.previewer.version (finding F24); <- TreeDelayedSetsVersion of FzfPreviewTree
 
 TraceLog == ndJsonDeserialize(IOEnv.TRACE)
 None == [none |-> TRUE]
 
-VARIABLES l, sid, texts, tmpls, kinds,
+VARIABLES l, sid, texts, tmpls, kinds, talls, H, W,
           issued,       \* announced requests not yet taken (or overwritten), oldest first
           expectSig,    \* an enq whose try-send has not been logged yet
           reqs,         \* reqs[v] = request taken as version v
           cur,          \* the command in flight: [v, pid, started, exited, kills, ctx] or None
           nsent, nkill, \* successful try-sends / receipts logged
-          lastDisp,     \* last display: [v, nlines, head] or None
+          lastDisp,     \* last display: [v, nlines] or None
+          idents,       \* idents[v] = identity line of the output of version v ("" until a line of it was seen)
+          vis, wrap,    \* the preview window is there; its wrap mode
+          pver, plv, pn, poff,  \* t.previewer: version; the version whose lines it holds (0: none) and how many; scroll offset
+          pd,           \* t.previewed: [ver, n, off, filled] + cv: the version whose lines the rows below the first were painted from
+          scr,          \* the H rows of the preview window (without the spinner / scroll indicator drawn over the first one)
           started,      \* commands started so far: [pid, v]
           pvSeq,        \* sequence number of the last event logged by the previewer goroutine itself (pick, cstart, cexit)
           quitSig,      \* outcome of the kill try-send of the exit path as far as logged: none | sent | dropped
           dev, phase    \* phase: run | exited
-vars == <<l, sid, texts, tmpls, kinds, issued, expectSig, reqs, cur, nsent, nkill, lastDisp, started, pvSeq, quitSig, dev, phase>>
+vars == <<l, sid, texts, tmpls, kinds, talls, H, W, issued, expectSig, reqs, cur, nsent, nkill, lastDisp, idents, vis, wrap, pver, plv, pn, poff,
+          pd, scr, started, pvSeq, quitSig, dev, phase>>
+sessVars == <<sid, texts, tmpls, kinds, talls, H, W>>
+winVars == <<idents, vis, wrap, pver, plv, pn, poff, pd, scr>>
 
-Init == /\ l = 1 /\ sid = -1 /\ texts = <<>> /\ tmpls = <<>> /\ kinds = <<>> /\ issued = <<>> /\ expectSig = FALSE /\ reqs = <<>> /\ cur = None
-        /\ nsent = 0 /\ nkill = 0 /\ lastDisp = None /\ started = <<>> /\ pvSeq = 0 /\ quitSig = "none" /\ dev = {} /\ phase = "run"
+NoPd == [ver |-> 0, n |-> 0, off |-> 0, filled |-> FALSE, cv |-> 0]
+Init == /\ l = 1 /\ sid = -1 /\ texts = <<>> /\ tmpls = <<>> /\ kinds = <<>> /\ talls = <<>> /\ H = 0 /\ W = 0
+        /\ issued = <<>> /\ expectSig = FALSE /\ reqs = <<>> /\ cur = None
+        /\ nsent = 0 /\ nkill = 0 /\ lastDisp = None /\ idents = <<>> /\ vis = TRUE /\ wrap = FALSE /\ pver = 0 /\ plv = 0 /\ pn = 0 /\ poff = 0
+        /\ pd = NoPd /\ scr = <<>>
+        /\ started = <<>> /\ pvSeq = 0 /\ quitSig = "none" /\ dev = {} /\ phase = "run"
 
 Ev == TraceLog[l]
 Is(name) == l <= Len(TraceLog) /\ Ev.ev = name /\ l' = l + 1
 
 TBegin == /\ Is("begin")
-          /\ sid' = Ev.sid /\ texts' = Ev.texts /\ tmpls' = Ev.tmpls /\ kinds' = Ev.kinds
+          /\ sid' = Ev.sid /\ texts' = Ev.texts /\ tmpls' = Ev.tmpls /\ kinds' = Ev.kinds /\ talls' = Ev.talls /\ H' = Ev.H /\ W' = Ev.W
           /\ issued' = <<>> /\ expectSig' = FALSE /\ reqs' = <<>> /\ cur' = None /\ nsent' = 0 /\ nkill' = 0 /\ lastDisp' = None
+          /\ idents' = <<>> /\ vis' = TRUE /\ wrap' = Ev.wrap /\ pver' = 0 /\ plv' = 0 /\ pn' = 0 /\ poff' = 0
+          /\ pd' = NoPd /\ scr' = [r \in 1..Ev.H |-> ""]
           /\ started' = <<>> /\ pvSeq' = 0 /\ quitSig' = "none" /\ dev' = {} /\ phase' = "run"
 
 -------------------------------------------------------------------------------
 (* what the placeholders of a template evaluate to - documented semantics of {n} {} {q} {+n} {+f} {f} (man fzf)   *)
 NoItem(i) == i < 0
-Mute(i) == kinds[((IF NoItem(i) THEN 0 ELSE i) % Len(kinds)) + 1] = "mute"      \* the command for this line prints nothing
+KindOf(i) == kinds[((IF NoItem(i) THEN 0 ELSE i) % Len(kinds)) + 1]
+Mute(i) == KindOf(i) = "mute"                                    \* the command for this line prints nothing
+(* the number of lines the command prints at once, and in the end *)
+HeadN(i) == IF Mute(i) THEN 0 ELSE talls[((IF NoItem(i) THEN 0 ELSE i) % Len(talls)) + 1]
+NLinesOK(i, n) == CASE KindOf(i) = "ticking" -> n >= HeadN(i)                      \* one more line every 250 ms, for ever
+                    [] KindOf(i) = "incrlong" -> n \in HeadN(i)..(HeadN(i) + 2)     \* two more lines, then it hangs
+                    [] KindOf(i) = "incr" -> n = HeadN(i) + 3                       \* three more lines, then it ends
+                    [] OTHER -> n = HeadN(i)
 NStr(i) == IF NoItem(i) THEN "" ELSE ToString(i)
 TextOf(i) == IF NoItem(i) THEN "" ELSE texts[i + 1]
 Plus(st) == IF st.sel = <<>> THEN <<st.item>> ELSE st.sel        \* {+}: the selection, or the current line if there is none
@@ -69,8 +103,10 @@ Field(code, st) == CASE code = "n" -> NStr(st.item) [] code = "s" -> TextOf(st.i
                      [] code = "pn" -> JoinN(Plus(st)) [] code = "pf" -> JoinF(Plus(st)) [] code = "f" -> TextOf(st.item)
 Codes(tag) == tmpls[tag]
 HasCode(tag, c) == \E k \in 1..Len(Codes(tag)) : Codes(tag)[k] = c
-(* the line a command prints (and logs) for terminal state st: the tag, then one field per placeholder *)
+(* the identity line a command prints (and logs) for terminal state st: the tag, then one field per placeholder *)
 Expected(tag, st) == <<tag>> \o [k \in 1..Len(Codes(tag)) |-> Field(Codes(tag)[k], st)]
+RECURSIVE JoinBar(_)
+JoinBar(s) == IF s = <<>> THEN "" ELSE IF Len(s) = 1 THEN s[1] ELSE s[1] \o "|" \o JoinBar(Tail(s))
 (* what can be said about the output of an intermediate command from the request alone: the fields that depend on  *)
 (* the focused line and the query only                                                                              *)
 AgreesWithRequest(vals, r) ==
@@ -79,6 +115,46 @@ AgreesWithRequest(vals, r) ==
           LET c == Codes(r.tag)[k] IN
           /\ (c \in {"n", "s", "f"} => vals[k + 1] = Field(c, [item |-> r.item, q |-> r.q, sel |-> <<>>]))
           /\ (c = "q" => vals[k + 1] = r.q)
+
+-------------------------------------------------------------------------------
+(* The rows of the window (renderPreviewText on tui.LightWindow; texts are plain ASCII, one cell per character).    *)
+Min(a, b) == IF a < b THEN a ELSE b
+Max(a, b) == IF a > b THEN a ELSE b
+Spaces == "                                                                                                                                                                                                        "
+Pad(s, w) == IF Len(s) >= w THEN SubSeq(s, 1, w) ELSE s \o SubSeq(Spaces, 1, w - Len(s))       \* exactly w cells
+(* line i of the output whose identity line is id *)
+LineOf(id, i) == id \o "|" \o ToString(i)
+(* the rows one line takes: without wrap it is cut at the right edge; with wrap the first row holds W cells, every   *)
+(* further row starts with the wrap sign ("> " under --no-unicode) and holds W - 2 more                               *)
+RECURSIVE Cont(_, _)
+Cont(s, w) == IF Len(s) <= w - 2 THEN <<"> " \o s>> ELSE <<"> " \o SubSeq(s, 1, w - 2)>> \o Cont(SubSeq(s, w - 1, Len(s)), w)
+Chunks(s, w, wr) == IF Len(s) <= w THEN <<s>> ELSE IF ~wr THEN <<SubSeq(s, 1, w)>> ELSE <<SubSeq(s, 1, w)>> \o Cont(SubSeq(s, w + 1, Len(s)), w)
+(* the rows the lines off+1 .. n take, as far as the window needs them (one more than fits tells that it is full) *)
+RECURSIVE Collect(_, _, _, _, _, _, _)
+Collect(id, i, n, acc, h, w, wr) == IF Len(acc) >= h \/ i > n THEN acc ELSE Collect(id, i + 1, n, acc \o Chunks(LineOf(id, i), w, wr), h, w, wr)
+(* DisplayFull: every row of the window; rows beyond the output are empty.  filled: the lines reach the last row *)
+FullRows(id, n, off, h, w, wr) == LET c == Collect(id, off + 1, n, <<>>, h, w, wr) IN [r \in 1..h |-> IF r <= Len(c) THEN c[r] ELSE ""]
+Fills(id, n, off, h, w, wr) == Len(Collect(id, off + 1, n, <<>>, h, w, wr)) >= h
+(* DisplayAppend: the first row is cleared and the first line is drawn again (a wrapped line runs on into the next   *)
+(* rows: they are overwritten from the left, the last of them is not cleared behind the text)                        *)
+Over(new, old) == IF Len(new) >= Len(old) THEN new ELSE new \o SubSeq(old, Len(new) + 1, Len(old))
+FirstRows(rows, id, n, off, h, w, wr) ==
+    IF off >= n THEN [rows EXCEPT ![1] = ""]
+    ELSE LET c == Chunks(LineOf(id, off + 1), w, wr)
+             k == Min(Len(c), h)
+         IN [r \in 1..h |-> IF r > k THEN rows[r] ELSE IF r = 1 \/ r < k THEN c[r] ELSE Over(c[r], rows[r])]
+IdOf(v) == IF v = 0 THEN "" ELSE idents[v]
+(* printPreview with t.previewer.version = pv and the first n lines of the output of version lv at offset off *)
+UnchangedFor(pv, n, off) == (pd.filled \/ n = pd.n) /\ pv = pd.ver /\ off = pd.off
+PaintScr(ids, pv, lv, n, off) ==
+    LET id == IF lv = 0 THEN "" ELSE ids[lv] IN
+    IF UnchangedFor(pv, n, off) THEN FirstRows(scr, id, n, off, H, W, wrap) ELSE FullRows(id, n, off, H, W, wrap)
+PaintPd(ids, pv, lv, n, off) ==
+    LET id == IF lv = 0 THEN "" ELSE ids[lv] IN
+    IF UnchangedFor(pv, n, off) THEN [pd EXCEPT !.n = n]
+    ELSE [ver |-> pv, n |-> n, off |-> off, filled |-> Fills(id, n, off, H, W, wrap), cv |-> lv]
+(* the optimisation taken for lines of another command than the one the rows were painted from: deviation StaleRows *)
+PaintDev(pv, lv, n, off) == IF UnchangedFor(pv, n, off) /\ pd.cv # lv /\ H > 1 THEN {"StaleRows"} ELSE {}
 
 -------------------------------------------------------------------------------
 Req(e) == [q |-> e.q, item |-> e.item, nitems |-> e.nitems]
@@ -92,7 +168,7 @@ TEnq == /\ Is("enq") /\ phase = "run" /\ ~expectSig
         /\ LET a == Append(issued, [q |-> Ev.q, item |-> Ev.item, nitems |-> Ev.nitems, tag |-> Ev.tag, seq |-> Ev.seq, during |-> Ev.during])
            IN issued' = IF InFlight /\ Len(a) > 2 THEN SubSeq(a, Len(a) - 1, Len(a)) ELSE a
         /\ expectSig' = TRUE
-        /\ UNCHANGED <<sid, texts, tmpls, kinds, reqs, cur, nsent, nkill, lastDisp, started, pvSeq, quitSig, dev, phase>>
+        /\ UNCHANGED <<sessVars, reqs, cur, nsent, nkill, lastDisp, winVars, started, pvSeq, quitSig, dev, phase>>
 
 (* the try-send: taken (a watcher was in its select) or dropped.  A drop while a command is in flight is where the  *)
 (* deviations LostCancel / LostKillAtExit of FzfPreview can have happened: both readings are tried, the deviation    *)
@@ -107,7 +183,7 @@ TSig == /\ Is("sig") /\ phase = "run"
                 /\ \/ UNCHANGED dev
                    \/ /\ InFlight /\ (Ev.immediately \/ cur.kills = 0)     \* a command is being started / runs unsignalled
                       /\ dev' = dev \cup {IF Ev.immediately THEN "LostKillAtExit" ELSE "LostCancel"}
-        /\ UNCHANGED <<sid, texts, tmpls, kinds, issued, reqs, cur, nkill, lastDisp, started, pvSeq, phase>>
+        /\ UNCHANGED <<sessVars, issued, reqs, cur, nkill, lastDisp, winVars, started, pvSeq, phase>>
 
 (* the previewer is sequential: it takes the next request only after the previous command was reaped; it takes one  *)
 (* of the announced requests, never one older than what it took before; versions count up by one.  Taking a request *)
@@ -125,43 +201,100 @@ TPick == /\ Is("pick") /\ phase = "run" /\ Free
          /\ cur' = IF Ev.item = -1 THEN None          \* no current line and nothing forces an update: blank preview, no command
                    ELSE [v |-> Ev.version, pid |-> 0, started |-> FALSE, exited |-> FALSE, kills |-> 0, kimm |-> FALSE, ctx |-> FALSE]
          /\ pvSeq' = Ev.seq
-         /\ UNCHANGED <<sid, texts, tmpls, kinds, expectSig, nsent, nkill, lastDisp, started, quitSig, phase>>
+         /\ idents' = Append(idents, "")
+         /\ UNCHANGED <<sessVars, expectSig, nsent, nkill, lastDisp, vis, wrap, pver, plv, pn, poff, pd, scr, started, quitSig, phase>>
 
 TStart == /\ Is("cstart") /\ phase = "run" /\ InFlight /\ ~cur.started /\ cur.v = Ev.version
           /\ cur' = [cur EXCEPT !.started = TRUE, !.pid = Ev.pid]
           /\ started' = Append(started, [pid |-> Ev.pid, v |-> Ev.version])
           /\ pvSeq' = Ev.seq
-          /\ UNCHANGED <<sid, texts, tmpls, kinds, issued, expectSig, reqs, nsent, nkill, lastDisp, quitSig, dev, phase>>
+          /\ UNCHANGED <<sessVars, issued, expectSig, reqs, nsent, nkill, lastDisp, winVars, quitSig, dev, phase>>
 
 (* the watcher leaves its select after one receipt *)
 TKill == /\ Is("kill") /\ phase = "run" /\ InFlight /\ cur.started /\ cur.v = Ev.version /\ cur.kills = 0 /\ ~cur.ctx
          /\ cur' = [cur EXCEPT !.kills = 1, !.kimm = Ev.immediately] /\ nkill' = nkill + 1
-         /\ UNCHANGED <<sid, texts, tmpls, kinds, issued, expectSig, reqs, nsent, lastDisp, started, pvSeq, quitSig, dev, phase>>
+         /\ UNCHANGED <<sessVars, issued, expectSig, reqs, nsent, lastDisp, winVars, started, pvSeq, quitSig, dev, phase>>
 (* cancel() comes after killPreview() on the exit path: a watcher can see ctx.Done only after the kill was attempted *)
 TCtx == /\ Is("ctxdone") /\ phase = "run" /\ InFlight /\ cur.started /\ cur.v = Ev.version /\ cur.kills = 0 /\ ~cur.ctx
         /\ quitSig # "none"
         /\ cur' = [cur EXCEPT !.ctx = TRUE]
-        /\ UNCHANGED <<sid, texts, tmpls, kinds, issued, expectSig, reqs, nsent, nkill, lastDisp, started, pvSeq, quitSig, dev, phase>>
+        /\ UNCHANGED <<sessVars, issued, expectSig, reqs, nsent, nkill, lastDisp, winVars, started, pvSeq, quitSig, dev, phase>>
 (* nobody but the watcher kills the command: without a receipt it ends by itself, with status 0 *)
 TCExit == /\ Is("cexit") /\ phase = "run" /\ InFlight /\ cur.started /\ cur.v = Ev.version
           /\ (cur.kills = 0 => Ev.status = 0)
           /\ cur' = [cur EXCEPT !.exited = TRUE]
           /\ pvSeq' = Ev.seq
-          /\ UNCHANGED <<sid, texts, tmpls, kinds, issued, expectSig, reqs, nsent, nkill, lastDisp, started, quitSig, dev, phase>>
+          /\ UNCHANGED <<sessVars, issued, expectSig, reqs, nsent, nkill, lastDisp, winVars, started, quitSig, dev, phase>>
 
-(* displays arrive in version order and show output of a command that was really started for that version; the      *)
-(* fields that depend on the focused line and the query are those of the request taken as that version               *)
+(* Results arrive in version order and are output of a command that was really started for that version; the       *)
+(* fields that depend on the focused line and the query are those of the request taken as that version.  The FIRST  *)
+(* result of a command resets the scroll offset (LostOffsetReset of FzfPreview: it was overwritten in the one-slot  *)
+(* box by a later result of the same command before the render loop saw it).  Then printPreview.                    *)
+Front(s) == SubSeq(s, 1, Len(s) - 1)
 TDisp == /\ Is("disp") /\ phase = "run"
          /\ Ev.version \in 1..Len(reqs)
          /\ (lastDisp # None => Ev.version >= lastDisp.v)
-         /\ (Ev.nlines > 0 => AgreesWithRequest(Ev.head, reqs[Ev.version]))
-         /\ lastDisp' = [v |-> Ev.version, nlines |-> Ev.nlines, head |-> Ev.head]
-         /\ UNCHANGED <<sid, texts, tmpls, kinds, issued, expectSig, reqs, cur, nsent, nkill, started, pvSeq, quitSig, dev, phase>>
+         /\ (Ev.nlines > 0 => Ev.head[Len(Ev.head)] = "1" /\ AgreesWithRequest(Front(Ev.head), reqs[Ev.version]))
+         /\ lastDisp' = [v |-> Ev.version, nlines |-> Ev.nlines]
+         /\ LET v == Ev.version
+                ids == IF Ev.nlines > 0 THEN [idents EXCEPT ![v] = JoinBar(Front(Ev.head))] ELSE idents
+                first == lastDisp = None \/ lastDisp.v # v
+            IN /\ (Ev.nlines > 0 /\ idents[v] # "" => idents[v] = JoinBar(Front(Ev.head)))          \* one command, one identity
+               /\ idents' = ids /\ pver' = v /\ plv' = (IF Ev.nlines > 0 THEN v ELSE 0) /\ pn' = Ev.nlines
+               /\ \E off \in {IF first THEN 0 ELSE poff, poff} :
+                    /\ poff' = off
+                    /\ IF vis THEN /\ scr' = PaintScr(ids, v, plv', Ev.nlines, off) /\ pd' = PaintPd(ids, v, plv', Ev.nlines, off)
+                                   /\ dev' = dev \cup PaintDev(v, plv', Ev.nlines, off) \cup (IF first /\ off # 0 THEN {"LostOffsetReset"} ELSE {})
+                              ELSE /\ UNCHANGED <<scr, pd>>
+                                   /\ dev' = dev \cup (IF first /\ off # 0 THEN {"LostOffsetReset"} ELSE {})
+         /\ UNCHANGED <<sessVars, issued, expectSig, reqs, cur, nsent, nkill, vis, wrap, started, pvSeq, quitSig, phase>>
+
+(* reqPreviewDelayed is not logged: once a command has been started, t.previewer.version may have become its version *)
+(* at any later moment (previewDelayed after the start, if the watcher still sat in its select).  It matters when     *)
+(* printPreview runs on the lines the previewer still holds: both readings are tried.                                 *)
+VersionsNow == {pver} \cup (IF DelayedSetsVersion /\ cur # None /\ cur.started /\ cur.v > pver THEN {cur.v} ELSE {})
+Repaint(pv) == /\ pver' = pv
+               /\ scr' = PaintScr(idents, pv, plv, pn, poff') /\ pd' = PaintPd(idents, pv, plv, pn, poff')
+               /\ dev' = dev \cup PaintDev(pv, plv, pn, poff')
+(* preview-up / -down / ...: scrollPreviewTo (no effect unless t.previewer.scrollable), then reqPreviewRefresh.        *)
+(* CODE-DERIVED: scrollable is set whenever more lines than rows are held or the offset is not 0, reset by            *)
+(* "Loading ..", and ALSO set when the same lines are displayed a second time (renderPreviewText leaves its loop at   *)
+(* the first line with lines remaining) - so only the first condition, with no command started since, is relied on.   *)
+Constrain(x, lo, hi) == Max(Min(x, hi), lo)
+Target(act) == CASE act = "preview-down" -> poff + 1 [] act = "preview-up" -> poff - 1
+                 [] act = "preview-page-down" -> poff + H [] act = "preview-page-up" -> poff - H
+                 [] act = "preview-half-page-down" -> poff + (H \div 2) [] act = "preview-half-page-up" -> poff - (H \div 2)
+                 [] act = "preview-top" -> 0 [] act = "preview-bottom" -> pn - H
+SurelyScrollable == (pn > H \/ poff > 0) /\ (cur = None \/ ~cur.started \/ (lastDisp # None /\ lastDisp.v = cur.v))
+TScroll == /\ Is("scroll") /\ phase = "run"
+           /\ LET new == Constrain(Target(Ev.act), 0, pn - 1) IN
+              \/ /\ (~vis \/ ~SurelyScrollable \/ new = poff)                  \* no window / not scrollable / already there
+                 /\ UNCHANGED <<pver, poff, pd, scr, dev>>
+              \/ /\ vis /\ new # poff /\ poff' = new
+                 /\ \E pv \in VersionsNow : Repaint(pv)
+           /\ UNCHANGED <<sessVars, issued, expectSig, reqs, cur, nsent, nkill, lastDisp, idents, vis, wrap, plv, pn, started, pvSeq, quitSig, phase>>
+(* toggle-preview-wrap: t.previewed.version = 0, reqPreviewRefresh (the guard in printPreview uses pd, so it is     *)
+(* updated first)                                                                                                    *)
+TWrap == /\ Is("tw") /\ phase = "run"
+         /\ IF vis
+            THEN /\ wrap' = ~wrap /\ poff' = poff
+                 /\ \E pv \in VersionsNow :
+                      /\ pver' = pv
+                      /\ scr' = FullRows(IdOf(plv), pn, poff, H, W, ~wrap)
+                      /\ pd' = [ver |-> pv, n |-> pn, off |-> poff, filled |-> Fills(IdOf(plv), pn, poff, H, W, ~wrap), cv |-> plv]
+                 /\ UNCHANGED dev
+            ELSE UNCHANGED <<wrap, pver, poff, pd, scr, dev>>
+         /\ UNCHANGED <<sessVars, issued, expectSig, reqs, cur, nsent, nkill, lastDisp, idents, vis, plv, pn, started, pvSeq, quitSig, phase>>
+(* toggle-preview: the windows are laid out again (empty window, t.previewed.version = 0); hiding drops the lines *)
+TToggle == /\ Is("tp") /\ phase = "run"
+           /\ vis' = ~vis /\ scr' = [r \in 1..H |-> ""] /\ pd' = [pd EXCEPT !.ver = 0]
+           /\ IF vis THEN plv' = 0 /\ pn' = 0 ELSE UNCHANGED <<plv, pn>>
+           /\ UNCHANGED <<sessVars, issued, expectSig, reqs, cur, nsent, nkill, lastDisp, idents, wrap, pver, poff, started, pvSeq, quitSig, dev, phase>>
 
 -------------------------------------------------------------------------------
 (* Quiescence.  e.procs = process groups of preview commands alive in the process table; e.log = the records the    *)
 (* commands appended to the session's LOG themselves; e.overlaps = commands that found the session's lock held by   *)
-(* another live command when they started; e.pane = first line of the captured preview window, split.                *)
+(* another live command when they started; e.rows = the H rows of the preview window on the captured screen.         *)
 (* every record in the commands' own log comes from a command fzf started, for the request it had taken, in order *)
 LogOK(e) == /\ \A k \in 1..Len(e.log) : \E j \in 1..Len(started) :
                   started[j].pid = e.log[k].pid /\ AgreesWithRequest(e.log[k].vals, reqs[started[j].v])
@@ -171,6 +304,25 @@ LogOK(e) == /\ \A k \in 1..Len(e.log) : \E j \in 1..Len(started) :
 OneAlive(e) == /\ e.overlaps = 0
                /\ Len(e.procs) <= 1
                /\ \A k \in 1..Len(e.procs) : InFlight /\ cur.started /\ e.procs[k] = cur.pid
+(* WHAT THE TERMINAL SHOWS IS WHAT printPreview PAINTED: every row below the first is the row of `scr`; the first   *)
+(* row is the row of `scr` with - CODE-DERIVED - the spinner of a running command and / or the scroll indicator      *)
+(* "offset+1/lines" drawn over its right end (renderPreviewSpinner; the indicator is there whenever the output is   *)
+(* taller than the window or scrolled).  While a command still produces output the screen may be one result behind:  *)
+(* e.nlo..pn lines.                                                                                                   *)
+Spins == {"-", "\\", "|", "/"}
+FirstRowOK(row, base, n) ==
+    LET info == ToString(poff + 1) \o "/" \o ToString(n)
+        must == n > H \/ poff > 0
+        With(ov) == row = Pad(base, W - Len(ov)) \o ov
+    IN \/ ~must /\ row = base
+       \/ With(info)
+       \/ InFlight /\ \E s \in Spins : (~must /\ With(s)) \/ With(s \o " " \o info)
+RowsShow(e, rows, n) == /\ FirstRowOK(e.rows[1], rows[1], n)
+                        /\ \A r \in 2..H : e.rows[r] = rows[r]
+ScreenMatches(e) ==
+    /\ Len(e.rows) = H
+    /\ \/ RowsShow(e, scr, pn)
+       \/ InFlight /\ \E n \in e.nlo..(pn - 1) : RowsShow(e, FullRows(IdOf(plv), n, poff, H, W, wrap), n)
 FinalState(e) == [item |-> e.cur, q |-> e.q, sel |-> e.sel]
 LastReq == reqs[Len(reqs)]
 NItemsOf(e) == IF e.sel = <<>> THEN 2 ELSE Len(e.sel) + 1
@@ -181,25 +333,32 @@ Right(r, e) == /\ r.tag = e.tag
 (* CODE-DERIVED (comment in buildPlusList): without a line under the cursor the preview is still run if the template *)
 (* contains {q}, or contains {+} and something is selected; otherwise the window is blanked and no command is run       *)
 Blank(e) == NoItem(e.cur) /\ ~HasCode(e.tag, "q") /\ ~((HasCode(e.tag, "pn") \/ HasCode(e.tag, "pf")) /\ e.sel # <<>>)
-CaughtUp(e) ==
+AllBlank == \A r \in 1..H : scr[r] = ""
+(* THE PROPERTY, row by row: the window holds the lines of the output of the command for the final state from the   *)
+(* scroll offset on, rows beyond the output are empty, and the offset lies inside the output                         *)
+ShowsOutput(id, n) == /\ scr = FullRows(id, n, poff, H, W, wrap)
+                      /\ poff < n \/ (n = 0 /\ poff = 0)
+Served(e) ==
     /\ ~expectSig /\ nkill <= nsent
     /\ reqs # <<>> /\ Right(LastReq, e)
     /\ \A k \in 1..Len(issued) : SameReq(issued[k], LastReq) /\ issued[k].tag = LastReq.tag     \* nothing different is waiting
     /\ IF Blank(e)
        THEN (* no line under the cursor, nothing to preview: no command, blank window *)
-            /\ cur = None /\ e.procs = <<>> /\ lastDisp # None /\ lastDisp.v = Len(reqs) /\ lastDisp.nlines = 0 /\ e.pane = <<>>
+            /\ cur = None /\ e.procs = <<>> /\ lastDisp # None /\ lastDisp.v = Len(reqs) /\ lastDisp.nlines = 0
        ELSE /\ cur # None /\ cur.v = Len(reqs) /\ cur.started /\ cur.kills = 0
             /\ (cur.exited => e.procs = <<>>)
             /\ lastDisp # None /\ lastDisp.v = Len(reqs)
-            /\ IF Mute(e.cur)
-               THEN lastDisp.nlines = 0 /\ e.pane = <<>>                         \* the right command printed nothing: empty window
-               ELSE /\ lastDisp.nlines > 0
-                    /\ (~NoItem(e.cur) =>
-                          /\ lastDisp.head = Expected(e.tag, FinalState(e))      \* what fzf put into the window
-                          /\ e.pane = Expected(e.tag, FinalState(e)))            \* what the terminal shows
             /\ (~NoItem(e.cur) =>
+                  /\ NLinesOK(e.cur, lastDisp.nlines)                            \* as many lines as the command prints
+                  /\ (lastDisp.nlines > 0 => idents[Len(reqs)] = JoinBar(Expected(e.tag, FinalState(e))))   \* what fzf took over
                   /\ e.log # <<>> /\ e.log[Len(e.log)].pid = cur.pid             \* what the command itself logged
                   /\ e.log[Len(e.log)].vals = Expected(e.tag, FinalState(e)))
+    /\ pver = Len(reqs) /\ pn = lastDisp.nlines /\ (pn > 0 => plv = Len(reqs))
+CaughtUp(e) == Served(e) /\ ShowsOutput(IdOf(plv), pn)
+(* exactly what the deviation StaleRows of FzfPreview leads to: everything is served, the first row is right, rows   *)
+(* below it still hold what an earlier paint left there                                                              *)
+StaleRowsShown(e) == "StaleRows" \in dev /\ Served(e) /\ ~ShowsOutput(IdOf(plv), pn)
+                     /\ scr[1] = FullRows(IdOf(plv), pn, poff, H, W, wrap)[1]
 (* exactly what the deviation StaleAfterShow of FzfPreview leads to: the request taken last was announced by a       *)
 (* toggle-preview / show-preview action, it was served flawlessly - but it is not the one for the final state and   *)
 (* the render loop announced nothing after it                                                                        *)
@@ -209,8 +368,8 @@ StaleAfterShow(e) ==
     /\ \A k \in 1..Len(issued) : SameReq(issued[k], LastReq) /\ issued[k].tag = LastReq.tag
     /\ cur # None /\ cur.v = Len(reqs) /\ cur.started /\ cur.kills = 0
     /\ (cur.exited => e.procs = <<>>)
-    /\ lastDisp # None /\ lastDisp.v = Len(reqs) /\ lastDisp.nlines > 0 /\ e.pane = lastDisp.head
-    /\ e.log # <<>> /\ e.log[Len(e.log)].pid = cur.pid /\ e.log[Len(e.log)].vals = lastDisp.head
+    /\ lastDisp # None /\ lastDisp.v = Len(reqs) /\ lastDisp.nlines > 0 /\ plv = Len(reqs) /\ ShowsOutput(IdOf(plv), pn)
+    /\ e.log # <<>> /\ e.log[Len(e.log)].pid = cur.pid /\ JoinBar(e.log[Len(e.log)].vals) = IdOf(plv)
 (* exactly what a lost cancel leads to, and nothing else: the command taken last is still in flight and was never   *)
 (* signalled, while the right request - the one announced last - waits in the box                                    *)
 StuckByLostCancel(e) ==
@@ -218,12 +377,13 @@ StuckByLostCancel(e) ==
     /\ ~expectSig /\ nkill <= nsent
     /\ InFlight /\ cur.kills = 0 /\ cur.v = Len(reqs)
     /\ issued # <<>> /\ Right(issued[Len(issued)], e)
-    /\ (lastDisp # None /\ lastDisp.nlines > 0 => e.pane = lastDisp.head)
 TQuiet == /\ Is("quiet") /\ phase = "run"
           /\ OneAlive(Ev) /\ LogOK(Ev)
-          /\ \/ (~Ev.visible \/ CaughtUp(Ev) \/ StuckByLostCancel(Ev)) /\ UNCHANGED dev
-             \/ Ev.visible /\ StaleAfterShow(Ev) /\ dev' = dev \cup {"StaleAfterShow"}
-          /\ UNCHANGED <<sid, texts, tmpls, kinds, issued, expectSig, reqs, cur, nsent, nkill, lastDisp, started, pvSeq, quitSig, phase>>
+          /\ Ev.visible = vis
+          /\ (vis => ScreenMatches(Ev))
+          /\ \/ (~vis \/ CaughtUp(Ev) \/ StuckByLostCancel(Ev) \/ StaleRowsShown(Ev)) /\ UNCHANGED dev
+             \/ vis /\ StaleAfterShow(Ev) /\ dev' = dev \cup {"StaleAfterShow"}
+          /\ UNCHANGED <<sessVars, issued, expectSig, reqs, cur, nsent, nkill, lastDisp, winVars, started, pvSeq, quitSig, phase>>
 
 (* End of the session: none survives.  A survivor is explained only by a kill that was dropped (LostKillAtExit), or  *)
 (* one that was never attempted / taken by the watcher but not carried out before the process was gone                *)
@@ -236,9 +396,9 @@ TExit == /\ Is("exit") /\ phase = "run"
                /\ \/ quitSig = "dropped" /\ "LostKillAtExit" \in dev /\ UNCHANGED dev
                   \/ quitSig # "dropped" /\ (cur.kills = 0 \/ cur.kimm \/ quitSig = "none") /\ dev' = dev \cup {"ExitBeforeKill"}
          /\ phase' = "exited"
-         /\ UNCHANGED <<sid, texts, tmpls, kinds, issued, expectSig, reqs, cur, nsent, nkill, lastDisp, started, pvSeq, quitSig>>
+         /\ UNCHANGED <<sessVars, issued, expectSig, reqs, cur, nsent, nkill, lastDisp, winVars, started, pvSeq, quitSig>>
 
-Next == TBegin \/ TEnq \/ TSig \/ TPick \/ TStart \/ TKill \/ TCtx \/ TCExit \/ TDisp \/ TQuiet \/ TExit
+Next == TBegin \/ TEnq \/ TSig \/ TPick \/ TStart \/ TKill \/ TCtx \/ TCExit \/ TDisp \/ TScroll \/ TWrap \/ TToggle \/ TQuiet \/ TExit
 Spec == Init /\ [][Next]_vars
 
 (* reported per session when its end is reached: with or without the help of a deviation action *)
